@@ -12,7 +12,10 @@ def tysMatch (op : OpInst) : SDir → Prop
   | _ => True
 
 /-- all per-directive instance conditions -/
-def okInstAll (op : OpInst) (d : SDir) : Prop := okInst op d ∧ tysMatch op d
+def okInstAll (D : Defs) (op : OpInst) (d : SDir) : Prop := okInst D op d ∧ tysMatch op d
+
+theorem okAgg_of_inFragment (D : Defs) {d : SDir} (h : inFragment d = true) : okAgg D d = true := by
+  cases d <;> first | rfl | simp [inFragment] at h
 
 theorem commaSep_eq_nil {mk : Nat → Tok} {xs : List Nat} : commaSep mk xs = [] ↔ xs = [] := by
   cases xs <;> simp [commaSep]
@@ -22,8 +25,8 @@ theorem clsHd_commaSep (mk : Nat → Tok) (x : Nat) (xs : List Nat) (r : List To
   simp [commaSep]
 
 /-- a directive that printed nothing is nullable -/
-theorem nullable_of_print_nil (D : Defs) (op : OpInst) (d : SDir) (hfrag : inFragment d = true)
-    (hinst : okInst op d) (h : printS D op d = []) : nullableS d = true := by
+theorem nullable_of_print_nil (D : Defs) (op : OpInst) (d : SDir)
+    (hinst : okInst D op d) (h : printS D op d = []) : nullableS d = true := by
   cases d with
   | kw s => simp [printS] at h
   | punct s => simp [printS] at h
@@ -62,13 +65,13 @@ theorem nullable_of_print_nil (D : Defs) (op : OpInst) (d : SDir) (hfrag : inFra
       | some v => simp [printS, hg] at h
   | unitAttr _ _ _ => rfl
   | attrDict _ _ _ => rfl
-  | operandsAll => simp [inFragment] at hfrag
-  | operandTysAll => simp [inFragment] at hfrag
-  | resultTysAll => simp [inFragment] at hfrag
-  | funcTy a b => simp [inFragment] at hfrag
+  | operandsAll => rfl
+  | operandTysAll => rfl
+  | resultTysAll => rfl
+  | funcTy a b => simp [printS] at h
 
 /-- the first token a directive prints has a class listed in `firstS` -/
-theorem first_of_print (D : Defs) (op : OpInst) (d : SDir) (hfrag : inFragment d = true) (r : List Tok)
+theorem first_of_print (D : Defs) (op : OpInst) (d : SDir) (r : List Tok)
     (h : printS D op d ≠ []) : clsHd (printS D op d ++ r) ∈ firstS d := by
   cases d with
   | kw s => simp [printS, firstS, clsOf]
@@ -112,24 +115,36 @@ theorem first_of_print (D : Defs) (op : OpInst) (d : SDir) (hfrag : inFragment d
     cases hes : dictEntries D reserved expProps op with
     | nil => simp [hes] at h
     | cons e es => cases withKw <;> simp [firstS, clsOf]
-  | operandsAll => simp [inFragment] at hfrag
-  | operandTysAll => simp [inFragment] at hfrag
-  | resultTysAll => simp [inFragment] at hfrag
-  | funcTy a b => simp [inFragment] at hfrag
+  | operandsAll =>
+    simp only [printS] at h ⊢
+    cases hx : op.operands.flatten with
+    | nil => simp [hx, commaSep] at h
+    | cons x xs => simp [commaSep, firstS, clsOf]
+  | operandTysAll =>
+    simp only [printS] at h ⊢
+    cases hx : op.operandTys.flatten with
+    | nil => simp [hx, commaSep] at h
+    | cons x xs => simp [commaSep, firstS, clsOf]
+  | resultTysAll =>
+    simp only [printS] at h ⊢
+    cases hx : op.resultTys.flatten with
+    | nil => simp [hx, commaSep] at h
+    | cons x xs => simp [commaSep, firstS, clsOf]
+  | funcTy a b => simp [printS, firstS, clsOf]
 
 theorem clsHd_printSeq (D : Defs) (op : OpInst) (ds : List SDir) (K : List Cls) (rest : List Tok)
-    (hfrag : ∀ d ∈ ds, inFragment d = true) (hinst : ∀ d ∈ ds, okInst op d) (hK : clsHd rest ∈ K) :
+    (hinst : ∀ d ∈ ds, okInst D op d) (hK : clsHd rest ∈ K) :
     clsHd (printSeq D op ds ++ rest) ∈ firstSeq ds K := by
   induction ds with
   | nil => simpa [printSeq, firstSeq] using hK
   | cons d ds ih =>
-    have ih' := ih (fun x hx => hfrag x (List.mem_cons_of_mem _ hx)) (fun x hx => hinst x (List.mem_cons_of_mem _ hx))
+    have ih' := ih (fun x hx => hinst x (List.mem_cons_of_mem _ hx))
     simp only [printSeq, firstSeq, List.append_assoc]
     by_cases hp : printS D op d = []
-    · have hn := nullable_of_print_nil D op d (hfrag d (List.mem_cons_self ..)) (hinst d (List.mem_cons_self ..)) hp
+    · have hn := nullable_of_print_nil D op d (hinst d (List.mem_cons_self ..)) hp
       simp only [hp, List.nil_append, hn, if_true]
       exact List.mem_append_right _ ih'
-    · exact List.mem_append_left _ (first_of_print D op d (hfrag d (List.mem_cons_self ..)) _ hp)
+    · exact List.mem_append_left _ (first_of_print D op d _ hp)
 
 theorem followOK_of_okFollow {d : SDir} {F : List Cls} {toks : List Tok} (h : okFollow d F = true)
     (hm : clsHd toks ∈ F) : FollowOK d toks := by
@@ -159,7 +174,7 @@ theorem parseSeq_printSeq (D : Defs) (op : OpInst) (ds : List SDir) (K : List Cl
     (rest : List Tok) (st : PState)
     (hwf : wfSeq ds K = true)
     (hfrag : ∀ d ∈ ds, inFragment d = true)
-    (hinst : ∀ d ∈ ds, okInst op d)
+    (hinst : ∀ d ∈ ds, okInst D op d)
     (hK : clsHd rest ∈ K) :
     parseSeq D ds (printSeq D op ds ++ rest) st = some (replaySeq D op ds st, rest) := by
   induction ds generalizing st with
@@ -168,11 +183,11 @@ theorem parseSeq_printSeq (D : Defs) (op : OpInst) (ds : List SDir) (K : List Cl
     simp only [wfSeq, Bool.and_eq_true] at hwf
     obtain ⟨hfol, hwf'⟩ := hwf
     have hfr' : ∀ x ∈ ds, inFragment x = true := fun x hx => hfrag x (List.mem_cons_of_mem _ hx)
-    have hin' : ∀ x ∈ ds, okInst op x := fun x hx => hinst x (List.mem_cons_of_mem _ hx)
-    have hfirst := clsHd_printSeq D op ds K rest hfr' hin' hK
+    have hin' : ∀ x ∈ ds, okInst D op x := fun x hx => hinst x (List.mem_cons_of_mem _ hx)
+    have hfirst := clsHd_printSeq D op ds K rest hin' hK
     have hf := followOK_of_okFollow hfol hfirst
-    obtain ⟨b, hb⟩ := parseS_printS D op d (printSeq D op ds ++ rest) st (hfrag d (List.mem_cons_self ..))
-      (hinst d (List.mem_cons_self ..)) hf
+    obtain ⟨b, hb⟩ := parseS_printS D op d (printSeq D op ds ++ rest) st
+      (hinst d (List.mem_cons_self ..)) (okAgg_of_inFragment D (hfrag d (List.mem_cons_self ..))) hf
     simp only [printSeq, List.append_assoc, parseSeq, hb, replaySeq]
     exact ih _ hwf' hfr' hin'
 
